@@ -370,6 +370,56 @@ func c17Logout(r *core.Run, idx int, rng *rand.Rand) {
 	c17Judge(r, wl, idx, class, c17LogSkel, call.D, slo, relay, desc, call)
 }
 
+// c17AfterFailedWrite renders a page after an earlier reply of the same provider could not be written
+// completely (broken connection): nothing of the earlier page may show up in the later one.
+func c17AfterFailedWrite(r *core.Run, idx int, rng *rand.Rand) {
+	const wl = "pages_after_failed_write"
+	c17Skeletons()
+	if c17SkelErr != "" {
+		return
+	}
+	e := env.Static(env.Opts{})
+	d := stdSP(0)
+	d.SLO = []spsim.SLO{{Binding: spsim.BindPost, Location: "https://sp0.example/slo"}}
+	mustRegister(e.W, d, "a")
+	mk := func(tag string) *cbScenario {
+		sc := randScenario(rng, fmt.Sprintf("MK%d%sx", idx, tag), false)
+		sc.Host = ""
+		sc.S.Binding = spsim.BindPost
+		sc.install(e.W)
+		return sc
+	}
+	for k := 0; k < 6; k++ {
+		a, b := mk(fmt.Sprintf("a%d", k)), mk(fmt.Sprintf("b%d", k))
+		// first reply: the connection breaks after some bytes (login or logout page)
+		fail := 1 + rng.Intn(1500)
+		if rng.Intn(2) == 0 {
+			e.Do(env.Req{Path: env.PathLogin, Query: "id=" + url.QueryEscape(a.S.ID), FailWriteAfter: fail})
+		} else {
+			l := conformantLogout(rng, d)
+			e.Do(env.Req{Method: "POST", Path: env.PathSLO, Body: spsim.FormBody("SAMLRequest", spsim.B64([]byte(l.XML(rng))), "RelayState", a.S.RelayState), FailWriteAfter: fail})
+		}
+		// second reply, for another session
+		call := e.Do(env.Req{Path: env.PathLogin, Query: "id=" + url.QueryEscape(b.S.ID)})
+		class := "after_failed_write"
+		desc := map[string]any{"first_session": a.S.ID, "second_session": b.S.ID, "first_write_failed_after_bytes": fail}
+		r.Eval(fmt.Sprintf("%s|%d|%d|%d", class, idx, k, fail))
+		r.Count("pages_after_failed_write", 1)
+		if call.Panic != "" {
+			r.Violate(core.Violation{Clause: "panic", Class: class, Reason: call.Panic, Workload: wl, Index: idx, Case: desc, Observed: call.Describe()})
+			return
+		}
+		if call.D.Kind != "form" {
+			r.Violate(core.Violation{Clause: "page_not_recognised", Class: class, Reason: "the reply after a failed write is not the auto-submit form: " + call.D.Kind, Workload: wl, Index: idx, Case: desc, Observed: call.Describe()})
+			return
+		}
+		c17Judge(r, wl, idx, class, c17PostSkel, call.D, b.S.ACS, b.S.RelayState, desc, call)
+		if strings.Contains(string(call.D.Body), a.Canary) {
+			r.Violate(core.Violation{Clause: "previous_page_in_reply", Class: class, Reason: "the page contains data of the reply whose delivery failed before", Workload: wl, Index: idx, Case: desc, Observed: call.Describe()})
+		}
+	}
+}
+
 var _ = url.QueryEscape
 
 func init() {
@@ -378,14 +428,16 @@ func init() {
 		TimeoutQuick: 5 * time.Minute, TimeoutThorough: 30 * time.Minute,
 		Build: func(c *Ctx) []core.Workload {
 			r := c.Run
-			r.Rule = "auto-submit pages are produced through every real path (login callback Success and error replies with RelayState and consumer URL from stored requests: arbitrary bytes incl. NUL, invalid UTF-8, up to 64 KiB; SSO error replies with RelayState from query / form and consumer URL from SP metadata; logout replies) and tokenised by the harness's own byte-level HTML tokenizer. The skeleton (token sequence, tag and attribute names, static values and text) must equal the skeleton of a rendering with neutral sentinels; the three dynamic values must be the substituted RelayState (NUL / invalid UTF-8 may become U+FFFD, CR/CRLF -> LF), a pure base64 message that decodes, and the consumer URL under the 'only-encodes' relation - or the inert placeholder, only for URLs with a non-http(s)/mailto 'scheme'; the emitted action's scheme as a browser reads it must be http, https, mailto or none. Distinct = (path, consumer URL, RelayState length)."
+			r.Rule = "auto-submit pages are produced through every real path (login callback Success and error replies with RelayState and consumer URL from stored requests: arbitrary bytes incl. NUL, invalid UTF-8, up to 64 KiB; SSO error replies with RelayState from query / form and consumer URL from SP metadata; logout replies) and tokenised by the harness's own byte-level HTML tokenizer. The skeleton (token sequence, tag and attribute names, static values and text) must equal the skeleton of a rendering with neutral sentinels; the three dynamic values must be the substituted RelayState (NUL / invalid UTF-8 may become U+FFFD, CR/CRLF -> LF), a pure base64 message that decodes, and the consumer URL under the 'only-encodes' relation - or the inert placeholder, only for URLs with a non-http(s)/mailto 'scheme'; the emitted action's scheme as a browser reads it must be http, https, mailto or none. A further workload renders a page right after an earlier reply of the same provider failed to be written (broken connection after N bytes). Distinct = (path, consumer URL, RelayState length)."
 			r.Require("pages_checked", int64(c.Pick(2000, 25000)))
 			r.Require("actions_replaced_by_placeholder", 100)
 			r.Require("actions_url", 500)
+			r.Require("pages_after_failed_write", 300)
 			return []core.Workload{
 				{Name: "callback_pages", N: c.Pick(1600, 20000), Fn: c17Callback},
 				{Name: "sso_error_pages", N: c.Pick(800, 10000), Fn: c17SSOError},
 				{Name: "logout_pages", N: c.Pick(800, 10000), Fn: c17Logout},
+				{Name: "pages_after_failed_write", N: c.Pick(100, 1000), Fn: c17AfterFailedWrite},
 			}
 		},
 	})
